@@ -35,6 +35,23 @@ func TestVerifC12Twin(t *testing.T) {
 		srv := vfGenServer(rt, vfGenOpts{IPFilters: rapid.Bool().Draw(rt, "ipf"), IPPool: vfIPPool, Bias12: true, BodyLimit: rapid.Bool().Draw(rt, "bodylimit"),
 			NoHeaders: rapid.IntRange(0, 3).Draw(rt, "noheaders") == 0, ServerIPF: rapid.Bool().Draw(rt, "serveripf")})
 		srv.CacheSize = rapid.SampledFrom([]int{1, 2, 8, 64}).Draw(rt, "cache")
+		// by construction, in a fifth of the cases: a host rule whose only entry for a path is
+		// header-conditioned, ahead of a catch-all rule that serves the same path unconditionally, and the
+		// same key requested without and with the header (what is cached for the one must not decide the other)
+		var crossExtra []vfReq
+		if rapid.IntRange(0, 4).Draw(rt, "crosshdr") == 0 {
+			h := rapid.SampledFrom([]string{"a.com", "b.com", "x.a.com"}).Draw(rt, "crosshdr.host")
+			P := rapid.SampledFrom(vfPathsPool).Draw(rt, "crosshdr.path")
+			ruleA := vfRule{Host: h, Paths: []vfPath{{Path: P, Backend: "p1", Headers: []vfHdr{{Key: "X-A", Values: []string{"1"}}}}}}
+			ruleB := vfRule{Paths: []vfPath{{Path: P, Backend: "p2"}}}
+			if rapid.Bool().Draw(rt, "crosshdr.prefix") {
+				ruleB.Paths[0] = vfPath{Prefix: "/", Backend: "p2"}
+			}
+			srv.Rules = append([]vfRule{ruleA, ruleB}, srv.Rules...)
+			crossExtra = []vfReq{{Method: "GET", Host: h, Path: P}, {Method: "GET", Host: h, Path: P, Headers: [][2]string{{"X-A", "1"}}},
+				{Method: "GET", Host: h, Path: P, Headers: [][2]string{{"X-A", "2"}}}}
+			vf.Class("header-conditioned-entry-of-a-host-rule-ahead-of-a-catch-all-rule")
+		}
 		twin := srv
 		twin.CacheSize = 0
 		y, y0 := srv.YAML(), twin.YAML()
@@ -52,6 +69,7 @@ func TestVerifC12Twin(t *testing.T) {
 		if collide {
 			extra = vfCollidingPair(rt, srv)
 		}
+		extra = append(extra, crossExtra...)
 		seq, _ := vfGenSeq(rt, srv, 5, 40, extra)
 		// clients whose real IP is empty or not an address (X-Forwarded-For with private hops only and no
 		// X-Real-Ip; a junk X-Real-Ip): whatever the filters decide for them, both twins must decide alike
